@@ -791,7 +791,8 @@ def _walk(case, obs):
                     jkey = (v, _rkey(["month", [y, 1, 1], 1]))
                     if m == 1:
                         jan_seen[(v, y)] = a
-                    elif (v, _rkey(r[2])) not in inputs:
+                    elif (v, _rkey(r[2])) not in inputs and any(tuple(d) <= (y, m, 1) for d in lv[0]):
+                        # (a month before the first formula starts has no formula to annualise)
                         jan_seen.setdefault(("asked", v, y), []).append((r, a, jkey in known_, lv[3], counts[lv[6]]))
                 known_.add((v, _rkey(r[2])))
         # annualised: every month equals the January value of the same simulation
